@@ -4,6 +4,7 @@ import asyncio
 R = 10.0          # reconnect timeout in virtual seconds
 UNIT = 1.0 / 16   # one specification tick (exactly representable: no float trouble at the watchdog boundaries)
 RT = 160          # R in ticks
+EPOCH = 1700000000.0
 
 
 class VLoop(asyncio.SelectorEventLoop):
@@ -78,9 +79,15 @@ def install(world, dev):
     import mysensors.gateway_tcp as GT
 
     class T:
+        # every clock the library might read is virtual; like the real ones, the wall clock and the monotonic clock are far apart
         @staticmethod
         def time():
+            return EPOCH + world.loop.vnow
+
+        @staticmethod
+        def monotonic():
             return world.loop.vnow
+        perf_counter = monotonic
 
         @staticmethod
         def sleep(d):
@@ -209,7 +216,16 @@ class AsyncLink:
         self._drain()
 
     def stop(self):
-        self.w.loop.run_until_complete(self.gw.stop())
+        # stop() must return without time passing (it only cancels and closes); it is run as a task so that a stop() that
+        # waits for something does not block the harness: that is recorded as "not quiescent"
+        task = self.w.loop.create_task(self.gw.stop())
+        self._drain(60)
+        if not task.done():
+            self.ok = False
+            task.cancel()
+            self._drain(5)
+        elif task.cancelled() or task.exception() is not None:
+            self.ok = False         # stop() raised (or was cancelled from inside): it did not complete
         self.w.stopped_at = self.w.now
         self._drain()
 
